@@ -270,6 +270,29 @@ CHECKS = [
               "function, child order, association) must have different keys. A TLA transcription of every _key is compared as DRIFT.",
          note="Four known findings (functions, domain kind, ProjectionList repr, abbreviated long index arrays). Two descriptions of the same projection matrix and post-build "
               "mutation (Scalar.set_value) are not judged."),
+    dict(id="C25", level=MC, technique="TLC enumerates lattice fracture networks and computes the unique conforming md-grid (spec/ref/FracMesh.tla, FracMeshEnum.tla); the real "
+         "meshed md-grids are exported and judged (J_FracMesh); simplex (gmsh) and tensor meshes judged by the validity predicates",
+         text="All admissible networks of 1-3 axis-aligned line fractures on small 2D lattices and rectangles on small 3D lattices (X/T/L configurations, fractures "
+              "touching the boundary) are meshed with pp.meshing.cart_grid (a sample also through create_mdg); TLC checks that each lower-dimensional cell is coupled to one "
+              "split host face per side (one side at T-ends), coupled faces coincide with the cell (centre, measure, nodes) with opposite normals, fracture tags mark "
+              "exactly the coupled faces, host volume = domain volume, cells lie on their fracture, mortar sides match; on the lattice family additionally equality with "
+              "the expected coupling pairs. A gmsh catalogue (non-axis-aligned, X/T/L/Y) and non-uniform tensor grids are judged by the predicates in fixed point.",
+         note="Float-judged clauses on the simplex/tensor families (tolerance policy, 0 inconclusive). One known finding (partially overlapping intersection segments make "
+              "split_intersections raise, order dependent; thorough tier only). Overlapping/duplicated fractures are outside the family."),
+    dict(id="C32", level=TV, technique="TLC enumerates directions (all Pythagorean quadruples up to a bound, signed permutations, generic integer and nearly parallel directions), point "
+         "sets and angles (spec/ref/OrthoMapsEnum.tla) and judges the returned matrices by integer identities or 39-bit fixed-point limb arithmetic (J_OrthoMaps)",
+         text="project_plane_matrix, project_line_matrix, rotation_matrix, compute_normal and TangentialNormalProjection: rows and columns orthonormal (distances preserved), "
+              "unit determinant, the normal / tangent is mapped onto the reference axis with its length, computed normals are unit and orthogonal to the point set, the "
+              "projection blocks are mutually consistent. Values that are rationals with a common denominator <= 1200 (the exact family: Rodrigues rotations of Pythagorean "
+              "unit vectors are rational) are judged by exact integer identities, all others in fixed point under the tolerance policy.",
+         note="Readings fixed in the assumptions: a normal exactly opposite to the reference axis may map to either orientation (the code returns the identity); 2D projection "
+              "blocks have |det| = 1 (documented tangent choice). map_grid is not covered."),
+    dict(id="C47", level=EX, technique="TLC enumerates 2D / 3D fracture networks and named data arrays (spec/ref/FileRoundTripEnum.tla) and judges what the real readers return after "
+         "the real writers (J_FileRoundTrip)",
+         text="csv round trips of 2D networks (header, max_num_fracs, tag columns, domain + fracture ids) and 3D polygon networks (with / without domain line) and txt round trips "
+              "of 1-3 named arrays of length 0-4: same fractures (as bags of end-point pairs / polygons up to cyclic shift and reversal), ids, domain, same names and values.",
+         note="Small-denominator coordinates so that the text formats are exact. Polyline / elliptic csv and fab files have no writer and are not covered; mismatched reader "
+              "options (has_domain) count as usage errors."),
 ]
 
 _NOT_BUILT = "check not built yet (planned, DESIGN.md section 10); not claimed until its commands are green on the unchanged tree"
@@ -277,8 +300,6 @@ NOT_APPLICABLE = [
     dict(property_id="C03", reason="only oracle is a finite-difference derivative of the implementation's own residual; no discrete/rational reference a TLA+ spec could state (DESIGN.md section 6)"),
     dict(property_id="C04", reason="identity about real-valued residual sums of full nonlinear models; binding would be a floating-point sum, the discrete content is covered by C21/C26/C27/C17 (DESIGN.md section 6)"),
     dict(property_id="C14", reason="metamorphic equality of floating-point matrices against the implementation itself; no reference semantics to specify (DESIGN.md section 6)"),
-    dict(property_id="C32", reason="square-root valued rotation matrices; orthogonality can only be judged in floating point, no rational reference (DESIGN.md section 6)"),
-    dict(property_id="C47", reason="text-file encode/decode fidelity; the abstract model is the identity function (DESIGN.md section 6)"),
 ]
 _claimed = {c["id"] for c in CHECKS}
 _na = {c["property_id"] for c in NOT_APPLICABLE}
